@@ -16,7 +16,9 @@ with open(os.path.join(VERIF, "seeded", "README.md"), "w") as f:
         else:
             how = str(fv)[:80] if fv else ""
         f.write(f"| {name} | {d['property']} | {(d.get('title') or '')[:110]} | {(d.get('needs_to_manifest') or '')[:140]} | {'obsolete (no longer a violation on the repaired tree)' if d.get('obsolete_on_repaired_tree') else ('YES' if d.get('check_caught_it') else 'NO')} | {d.get('tier_needed')} | {'yes' if d.get('with_failing_input') else 'no'} | {how} |\n")
-    caught = sum(1 for _, d in rows if d.get("check_caught_it") or d.get("obsolete_on_repaired_tree"))
-    f.write(f"\n{caught} of {len(rows)} seeded changes are caught by the check of their property.\n")
+    obsolete = sum(1 for _, d in rows if d.get("obsolete_on_repaired_tree"))
+    caught = sum(1 for _, d in rows if d.get("check_caught_it") and not d.get("obsolete_on_repaired_tree"))
+    withinput = sum(1 for _, d in rows if d.get("with_failing_input") and not d.get("obsolete_on_repaired_tree"))
+    f.write(f"\n{caught} of {len(rows) - obsolete} seeded changes that still break their property on the current tree are caught by the check of their property on the current tree ({withinput} with a concrete failing input, the others as a broken correspondence: `no-failing-input-found`); {obsolete} seeded change(s) no longer break the property since a later repair of the library (marked obsolete; caught when collected).\n")
     f.write("\nStrengthenings made because a seeded change was missed at first: see the notes in each meta.json (`history`) and DESIGN.md §0.5.\n")
 print(len(rows), "seeded changes")
